@@ -23,6 +23,26 @@ def tokCall (s : String) : Option Call :=
 
 def kindOf (s : String) : Option Bool := if s == "f" then some false else if s == "d" then some true else none
 
+def parseEv (s : String) : Option LEv :=
+  match s.splitOn "," with
+  | [d, ok, on, nk, np, nn] =>
+    some { dir := untok d, old := (kindOf ok).map fun k => (k, untok on), new := (kindOf nk).map fun k => (k, untok nn), newParent := untok np }
+  | _ => none
+
+/-- cut the outputs at the `@` markers -/
+def segments (o : List String) : List (List String) :=
+  (o.foldl (fun (acc : List (List String)) t =>
+    if t == "@" then [] :: acc else
+    match acc with
+    | [] => []
+    | sg :: r => (sg ++ [t]) :: r) []).reverse
+
+def implStep (seg : List String) : ImplStep :=
+  { files := (seg.filter fun t => t != "-" && t != "panic" && !t.startsWith "!" && !t.endsWith "/").map (·.toList),
+    status := if seg.contains "panic" then "panic" else if seg.contains "!err" then "err" else "ok" }
+
+def lsTgt : Str := "/t".toList
+
 def step (_ : Unit) (n : Nat) (ln : Line) : Unit × List String :=
   let a := ln.args
   let o := ln.outs
@@ -63,6 +83,40 @@ def step (_ : Unit) (n : Nat) (ln : Line) : Unit × List String :=
       | some _, some _ => (if oIn && nIn then "COV sync.in-in" else if oIn then "COV sync.in-out" else if nIn then "COV sync.out-in" else "COV sync.out-out")
       | some _, none => "COV sync.delete" | none, some _ => "COV sync.create" | none, none => "COV sync.empty"
     ((), diff n ln model ++ j ++ [cov] ++ (if m.isNone then ["COV sync.panic"] else []))
+  | "lsync" =>
+    let src := untok (g 0); let incr := g 1 == "1"
+    let evs := ((g 2).splitOn ";").filterMap parseEv
+    let run := lsyncRun src lsTgt incr Tree.empty evs
+    let model := run.flatMap fun r =>
+      "@" :: (match r.2 with
+        | .panic => ["panic"]
+        | st =>
+          let l := (listing (comps lsTgt) r.1).map String.ofList
+          (if l.isEmpty then ["-"] else l) ++ (if st = .err then ["!err"] else []))
+    let impl := (segments o).map implStep
+    let jr := lsyncJudge src incr evs impl
+    let j := match jr.1 with | none => [] | some cls => [specfail n cls s!"{g 0} {g 2}"]
+    -- coverage from the model run: trees before each processed event
+    let before := Tree.empty :: run.map (·.1)
+    let steps := (evs.zip before).zip run
+    let cov := (steps.flatMap fun x =>
+      let e := x.1.1; let t0 := x.1.2; let t1 := x.2.1
+      (match e.old, e.new with
+        | some _, some _ =>
+          if comps (child e.dir ((e.old.map (·.2)).getD [])) != comps (child e.newParent ((e.new.map (·.2)).getD [])) then
+            (if t0 == t1 then ["COV lsync.rename-tree-unchanged"] else ["COV lsync.rename"])
+          else ["COV lsync.update"]
+        | some o, none =>
+          let k := comps (buildKey src lsTgt incr (child e.dir o.2))
+          if t0 == t1 && stat t0 k == .dir && hasChildren t0 k then ["COV lsync.delete-dir-kept"] else ["COV lsync.delete"]
+        | none, some n => if n.1 then ["COV lsync.create-dir"] else ["COV lsync.create"]
+        | none, none => []) ++
+      (if (evPaths e).any isMultiPart then ["COV lsync.multipart"] else []) ++
+      (match x.2.2 with | .err => ["COV lsync.err"] | .panic => ["COV lsync.panic"] | .ok => [])) ++
+      (if incr then ["COV lsync.incremental"] else []) ++
+      (if jr.1.isNone && !incr && jr.2 == evs.length && jr.2 > 1 then ["COV lsync.mirror-ok"] else []) ++
+      (if jr.1.isSome then ["COV lsync.deviation"] else [])
+    ((), diff n ln model ++ j ++ cov)
   | _ => ((), [s!"DIFF {n} unknown-op {ln.op}"])
 
 def main : IO Unit := run { init := (), step := step }
